@@ -372,6 +372,7 @@ def counted_vs_measured(prog: Program, rep, RID: str):
             if not (isinstance(expr, ast.Compare) and len(expr.ops) == 1):
                 raise AnalysisError(f"{cname}.{mname}: row 7a is not a single comparison")
             key = f"{cname}.{mname}:7a:counted-vs-measured"
+            expr = resolve(expr)            # (a sum or a threshold hoisted into a local is read in place)
             sums = [q for q in ast.walk(expr) if isinstance(q, ast.Call) and isinstance(q.func, ast.Attribute) and q.func.attr == "quicksum" and q.args and
                     isinstance(q.args[0], (ast.GeneratorExp, ast.ListComp)) and "edge" in norm(q.args[0].elt)]
             if len(sums) != 1 or len(sums[0].args[0].generators) != 1:
